@@ -215,6 +215,13 @@ func newLink(conn int, auto, ser bool, cw, sr, sw, cr string) *link {
 
 var errInjected = errors.New("verif: injected transport failure")
 
+// errTemporary is a persistent failure that (like *net.OpError{ETIMEDOUT}) reports itself as temporary.
+type errTemporary struct{}
+
+func (errTemporary) Error() string   { return "verif: connection timed out" }
+func (errTemporary) Temporary() bool { return true }
+func (errTemporary) Timeout() bool   { return true }
+
 // tap wraps any RpcReadWriter and logs reads/writes with the given event names.
 type tap struct {
 	inner  goat.RpcReadWriter
